@@ -90,6 +90,19 @@ def _path_weight(g) -> float:
     return sum(g.edges[a, b]["weight"] for a, b in zip(p, p[1:]))
 
 
+def _frame_trace(k: int) -> List[Dict[str, Any]]:
+    """an operator whose two children sit inside one Python stack frame (with_stack=True); the gap between the children lies on the
+    critical path and is attributed to the frame, whose display name shortens to "" / reads like a missing value in a CSV file"""
+    from hv import synth
+
+    b = 1_000_000
+    frame = ["<built-in method apply of FunctionMeta object at 0x7f5c2c1d3a90>", "<lambda>", "None", "nan"][k % 4]
+    return [synth.host_op("aten::first_op", b, 5), synth.profiler_step(1, b + 5, 195),
+            synth.host_op("MyFnBackward", b + 10, 140), {"ph": "X", "cat": "python_function", "name": frame, "pid": synth.HOST_PID, "tid": 1, "ts": b + 15, "dur": 125},
+            synth.host_op("aten::mul", b + 20, 20), synth.host_op("aten::add", b + 80, 50), synth.launch(b + 90, 10, 1), synth.kernel("void elementwise_kernel", b + 110, 50, 7, 1),
+            synth.profiler_step(2, b + 200, 60), synth.host_op("aten::relu", b + 205, 20), synth.profiler_step(3, b + 260, 40), synth.host_op("aten::relu", b + 265, 20)]
+
+
 def _case(seed: int) -> Dict[str, Any]:
     from hv import cpgen, rt
     from hta.analyzers.critical_path_analysis import restore_cpgraph
@@ -99,7 +112,9 @@ def _case(seed: int) -> Dict[str, Any]:
     work = tempfile.mkdtemp(prefix="hv_c19_")
     extracted: List[str] = []
     try:
-        evs = cpgen.gen_cp_events(seed, n_steps=3, n_streams=1 + seed % 3, annotations=bool(seed % 2), n_threads=2 if seed % 4 == 1 else 1)
+        evs = cpgen.gen_cp_events(seed, n_steps=3, n_streams=1 + seed % 3, annotations=bool(seed % 2), n_threads=2 if seed % 4 == 1 else 1, python_frames=(seed % 4 == 3))
+        if seed < 0:
+            evs = _frame_trace(-seed)
         inp = {"seed": seed, "events": {0: evs}}
         with rt.trace_dir({0: evs}) as d:
             try:
@@ -123,7 +138,7 @@ def _case(seed: int) -> Dict[str, Any]:
                         z = rt.lib(fails, "save", inp, cur.save, out_dir)
                         extracted.append(os.path.join("/tmp", out_dir.lstrip("/")))
                         cur = rt.lib(fails, "restore_cpgraph", inp, restore_cpgraph, z, ta.t, 0)
-                        got = _snapshot(cur)
+                        got = rt.lib(fails, "breakdown(restored graph)", {**inp, "graph": gi, "cycle": cycle}, _snapshot, cur)
                         n += 1
                         diff = [k for k in want if got[k] != want[k]]
                         if diff:
@@ -164,7 +179,7 @@ def bounded(ctx):
     from hv import rt
 
     n = 24 if not ctx.thorough else 300
-    res = rt.pmap(_case, [ctx.seed * 83 + i for i in range(n)], ctx.procs)
+    res = rt.pmap(_case, [ctx.seed * 83 + i for i in range(n)] + [-k for k in range(1, 5)], ctx.procs)  # negative: crafted traces with a Python frame on the path
     return rt.summarise(res, f"{PROP}.bounded", f"{n} traces x up to two analysed windows, each saved and restored 1-3 times under ONE directory name (so later saves overwrite earlier "
                         "ones and earlier extractions exist); equal-weight alternative paths occur (two streams feeding one synchronisation)")
 
